@@ -21,6 +21,7 @@ type DemuxParams struct {
 	Writes   []int     `json:"writes"`   // per announced connection: how many envelopes it writes on its logical connection
 	CancelKey int      `json:"cancel_key"` // -1: none
 	CancelAt int       `json:"cancel_at"`  // after this many envelopes were fed
+	Cancels  int       `json:"cancels,omitempty"` // how many tasks call Cancel(key) at that point (concurrent cancels of one key are legal)
 	StopAt   int       `json:"stop_at"`    // -1: only at the end
 }
 
@@ -49,6 +50,10 @@ func genDemux(g *rand.Rand, tier string) any {
 	if g.IntN(2) == 0 {
 		p.CancelKey = g.IntN(p.Keys)
 		p.CancelAt = g.IntN(n + 1)
+		p.Cancels = 1
+		if g.IntN(3) == 0 {
+			p.Cancels = 2 + g.IntN(2)
+		}
 	}
 	if g.IntN(3) == 0 {
 		p.StopAt = g.IntN(n + 1)
@@ -194,11 +199,21 @@ func execDemux(e *Env, pp any) {
 			cancelDone = true
 			k := keyName(p.CancelKey % p.Keys)
 			e.Note("fault.demux.cancel")
-			e.Go("canceller", func() {
-				e.Pt("cancel")
-				dm.Cancel(k)
-				cancelEv = e.Log("demux.cancel", "", 0, k)
-			})
+			for ci := 0; ci < max(p.Cancels, 1); ci++ {
+				e.Go(fmt.Sprintf("canceller%d", ci), func() {
+					e.Pt("cancel")
+					dm.Cancel(k)
+					ev := e.Log("demux.cancel", "", 0, k)
+					histMu.Lock()
+					if ev > cancelEv {
+						cancelEv = ev // "after Cancel returned" = after the last of them
+					}
+					histMu.Unlock()
+				})
+			}
+			if p.Cancels > 1 {
+				e.Note("fault.demux.cancel.concurrent")
+			}
 			continue
 		}
 		if p.StopAt >= 0 && !stopped && fed >= p.StopAt {
@@ -266,7 +281,7 @@ func execDemux(e *Env, pp any) {
 		}
 		maxConns := 1
 		if key == cancelKey {
-			maxConns = 2
+			maxConns = 1 + max(p.Cancels, 1) // every Cancel may end one epoch of the key
 		}
 		if len(list) > maxConns {
 			e.Violate(prop, "announced-twice", "demux.go:newConnLocked", "key %s was announced %d times (cancelled: %v)", key, len(list), key == cancelKey)
